@@ -78,9 +78,29 @@ func (p *vParser) cat() *vNode {
 		if p.err {
 			return n
 		}
-		for p.i < len(p.s) && p.s[p.i] == '*' {
-			p.i++
-			a = &vNode{kind: vnStar, sub: []*vNode{a}}
+		for p.i < len(p.s) {
+			switch c := p.s[p.i]; {
+			case c == '*':
+				p.i++
+				a = &vNode{kind: vnStar, sub: []*vNode{a}}
+				continue
+			case c == '+':
+				p.i++
+				a = &vNode{kind: vnCat, sub: []*vNode{a, {kind: vnStar, sub: []*vNode{a}}}}
+				continue
+			case c == '?':
+				p.i++
+				a = &vNode{kind: vnAlt, sub: []*vNode{a, {kind: vnEmpty}}}
+				continue
+			case c == '{':
+				// {n}, {n,} or {n,m} is a repetition; any other use of '{' is a literal (RE2)
+				if lo, hi, end, ok := p.repeat(); ok {
+					p.i = end
+					a = vRepeat(a, lo, hi)
+					continue
+				}
+			}
+			break
 		}
 		n.sub = append(n.sub, a)
 	}
@@ -144,19 +164,65 @@ func (p *vParser) atom() *vNode {
 			n.set = append(n.set, c)
 			p.i++
 		}
-	case '*', '+', '?', '{', '}', ']':
-		// a repetition operator with nothing to repeat, or a stray closer: outside the subset
-		// (CompileGlobs escapes all of these except ']', which RE2 accepts as a literal)
-		if b == ']' {
-			p.i++
-			return &vNode{kind: vnLit, c: b}
-		}
+	case '*', '+', '?':
+		// a repetition operator with nothing to repeat
 		p.err = true
 		return nil
+	case '{':
+		if _, _, _, ok := p.repeat(); ok {
+			p.err = true // a repetition with nothing to repeat
+			return nil
+		}
+		p.i++
+		return &vNode{kind: vnLit, c: b}
 	default:
 		p.i++
 		return &vNode{kind: vnLit, c: b}
 	}
+}
+
+// repeat parses {n}, {n,} or {n,m} at p.i (hi = -1: unbounded).
+func (p *vParser) repeat() (lo, hi, end int, ok bool) {
+	i := p.i + 1
+	num := func() (int, bool) {
+		v, any := 0, false
+		for i < len(p.s) && p.s[i] >= '0' && p.s[i] <= '9' {
+			v = v*10 + int(p.s[i]-'0')
+			i++
+			any = true
+		}
+		return v, any
+	}
+	lo, ok = num()
+	if !ok || i >= len(p.s) {
+		return 0, 0, 0, false
+	}
+	hi = lo
+	if p.s[i] == ',' {
+		i++
+		hi = -1
+		if v, any := num(); any {
+			hi = v
+		}
+	}
+	if i >= len(p.s) || p.s[i] != '}' || (hi >= 0 && hi < lo) || lo > 8 {
+		return 0, 0, 0, false
+	}
+	return lo, hi, i + 1, true
+}
+
+func vRepeat(a *vNode, lo, hi int) *vNode {
+	n := &vNode{kind: vnCat}
+	for i := 0; i < lo; i++ {
+		n.sub = append(n.sub, a)
+	}
+	if hi < 0 {
+		n.sub = append(n.sub, &vNode{kind: vnStar, sub: []*vNode{a}})
+	}
+	for i := lo; i < hi; i++ {
+		n.sub = append(n.sub, &vNode{kind: vnAlt, sub: []*vNode{a, {kind: vnEmpty}}})
+	}
+	return n
 }
 
 // vRel is a relation on positions 0..n: r[i][j] = 1 iff the node matches s[i:j].
